@@ -39,6 +39,9 @@ state element by its kind name), input port bits, assign pairs and undriven name
     every interface node (output port bit, data pin of a flip-flop / latch that is a primitive state element) is what the module
     observes (`vCaptures`).  `verilog_library_text_end_to_end` — the same for the circuit built from the model's reading of the
     printed module TEXT (`verilog_text_to_nnet`; any layout by `verilog_text_layout_irrelevant`).
+  - non-vacuity (section `Example`): NANGATE `AOI21_X1` feeding `INV_X1` (real implementation dumps, rows of the generated tables),
+    and the same with a flip-flop `DFF` as PRIMITIVE state element in a feedback loop: every hypothesis by `decide +kernel`, the
+    theorem applied (from the text; line value resp. captured values = those of the datasheet model the evaluator computes).
   - `verilog_lib_checker_sound` — the driver's acceptance check `vModelLibB` accepts only datasheet models;
     `verilog_lib_certs_sound` — the driver's Boolean certificate check `certsB` implies the hypothesis `InstCert` of every library-cell node.
 * **Hypotheses that remain** (all decidable; evaluated by the driver on every generated case, harness/c11.py `library_sem`):
@@ -358,6 +361,83 @@ example : exec semL2n ((genOps Gen.kindPrefixes exH.net exOrder false).map OpRow
 /-- the function of the module on all eight rows `(a, b1, b2)`: `y = a ∨ (b1 ∧ b2)` -/
 example : (List.range 8).map (fun r => lookupA (vEvalLib (libHas exLibN) exRowN exTLn exLM.ports exLS (fun p => (r >>> p) % 2 == 1)) "y") =
     [some false, some true, some false, some true, some false, some true, some true, some true] := by decide +kernel
+
+/-! ### … with a flip-flop as PRIMITIVE state element (kind `DFF`, not a cell of the library)
+
+`module top(a, b, y); input a, b; output y; wire d, q; AOI21_X1 u1(.A(a), .B1(b), .B2(q), .ZN(d)); DFF f(.D(d), .Q(q));
+INV_X1 u2(.I(q), .ZN(y)); endmodule` — interface positions: `a`, `b`, `y`, then the flip-flop `f`. -/
+def exTLf : TL := fun k p =>
+  if k == "DFF" then (if p == "D" then some (0, false) else if p == "CLK" then some (1, false) else if p == "Q" then some (0, true)
+    else if p == "QN" then some (1, true) else none)
+  else exTLn k p
+def exFM : VModule := ⟨"top", ["a", "b", "y"],
+  [.decl .input none ["a", "b"], .decl .output none ["y"], .decl .wire none ["d", "q"],
+   .inst "AOI21_X1" "u1" [.named "A" (some (.sig "a" none)), .named "B1" (some (.sig "b" none)), .named "B2" (some (.sig "q" none)),
+     .named "ZN" (some (.sig "d" none))],
+   .inst "DFF" "f" [.named "D" (some (.sig "d" none)), .named "Q" (some (.sig "q" none))],
+   .inst "INV_X1" "u2" [.named "I" (some (.sig "q" none)), .named "ZN" (some (.sig "y" none))]]⟩
+def exFRs : List RStmt := (toRs exFM.stmts).getD []
+def exFS : List Stmt := exFRs.map transform
+def exFNN : NNet := verilogNNet {} exTLf exFM.ports exFS
+def exFH : NNet := (resolveCells exLibN exFNN).getD default
+def exFOrder : List Nat := [6, 7, 8, 9, 2, 3, 0, 1, 4, 5, 10]
+/-- stimulus: `a = 0`, `b = 1`, state of `f` = 1 -/
+def exFEnv : Nat → Bool := fun x => x == exFH.net.idx.ppi + 1 || x == exFH.net.idx.ppi + 3
+
+theorem exFM_rs : toRs exFM.stmts = some exFRs := by
+  have h : (toRs exFM.stmts).isSome = true := by decide +kernel
+  unfold exFRs
+  cases h' : toRs exFM.stmts with
+  | none => rw [h'] at h; cases h
+  | some rs => rfl
+theorem exFH_eq : resolveCells exLibN exFNN = some exFH := by
+  have h : (resolveCells exLibN exFNN).isSome = true := by decide +kernel
+  unfold exFH
+  cases h' : resolveCells exLibN exFNN with
+  | none => rw [h'] at h; cases h
+  | some r => rfl
+theorem exFCerts : ∀ c, c < exFNN.net.nodes.size → (exLibN.find (exFNN.net.node c).kind).isSome = true →
+    InstCert exLibN exRowN exOrdN exFNN c := by
+  intro c hc hs
+  have h11 : c < 11 := by
+    have : exFNN.net.nodes.size = 11 := by decide +kernel
+    omega
+  rcases (by omega : c = 0 ∨ c = 1 ∨ c = 2 ∨ c = 3 ∨ c = 4 ∨ c = 5 ∨ c = 6 ∨ c = 7 ∨ c = 8 ∨ c = 9 ∨ c = 10) with
+    rfl | rfl | rfl | rfl | rfl | rfl | rfl | rfl | rfl | rfl | rfl
+  · exact ⟨nAoi, ⟨[0, 1, 2], [3], [0], some 4⟩, by decide +kernel, by decide +kernel, by decide +kernel, by decide +kernel,
+      by decide +kernel, by decide +kernel, by decide +kernel, by decide +kernel, exRow_mem _, by decide +kernel, by decide +kernel⟩
+  · exact absurd hs (by decide +kernel)
+  · exact absurd hs (by decide +kernel)
+  · exact absurd hs (by decide +kernel)
+  · exact ⟨nInv, ⟨[0], [1], [0], some 2⟩, by decide +kernel, by decide +kernel, by decide +kernel, by decide +kernel,
+      by decide +kernel, by decide +kernel, by decide +kernel, by decide +kernel, exRow_mem _, by decide +kernel, by decide +kernel⟩
+  · exact absurd hs (by decide +kernel)
+  · exact absurd hs (by decide +kernel)
+  · exact absurd hs (by decide +kernel)
+  · exact absurd hs (by decide +kernel)
+  · exact absurd hs (by decide +kernel)
+  · exact absurd hs (by decide +kernel)
+
+/-- the flip-flop stays a state element of the resolved circuit (`s_nodes` = the three ports, then node 2 = `f`); the datasheet
+model under the stimulus: `q = 1` (state), `d = AOI21(a; b, q) = 0`, `y = ¬q = 0` -/
+example : exFH.kindNames = [("AOI21", "u1"), ("__fork__", "d"), ("DFF", "f"), ("__fork__", "q"), ("INV1", "u2"), ("__fork__", "y"),
+      ("input", "a"), ("__fork__", "a"), ("input", "b"), ("__fork__", "b"), ("output", "y")] ∧ exFH.net.sNodes = [6, 8, 10, 2] ∧
+    vEvalLib (libHas exLibN) exRowN exTLf exFM.ports exFS (fun p => exFEnv (exFH.net.idx.ppi + p)) =
+      [("a", false), ("b", true), ("q", true), ("y", false), ("d", false)] := by decide +kernel
+
+/-- **the theorem applied**: what the `LogicSim` model of the resolved circuit captures at the interface nodes — nothing at the input
+ports, `y = 0` at the output port, the next state `d = 0` at the data pin of the flip-flop — is what the datasheet model observes -/
+example : ((verilogNet {} exTLf exFM.ports exFS).sNodes.map fun n => (exFH.net.node n).inPin 0 |>.map
+      (exec semL2n ((genOps Gen.kindPrefixes exFH.net exFOrder false).map OpRow.toOp) exFEnv)) =
+    [none, none, some false, some false] := by
+  have hm : vModelLibB (libHas exLibN) exRowN exTLf exFM.ports exFS (fun p => exFEnv (exFH.net.idx.ppi + p))
+      [("a", false), ("b", true), ("q", true), ("y", false), ("d", false)] = true := by decide +kernel
+  obtain ⟨σ, _, huniq, _, hcap⟩ := verilog_library_end_to_end {} exTLf exFM.ports exFS (by decide +kernel) exLibN (by decide +kernel)
+    exFH (by decide +kernel) (by decide +kernel) exFH_eq exRowN exOrdN exFCerts (by decide +kernel) exFOrder (by decide +kernel)
+    (by decide +kernel) (by decide +kernel) exFEnv (by decide +kernel)
+  have hσ := huniq _ (verilog_lib_checker_sound _ _ _ _ _ _ _ hm)
+  rw [hcap, ← hσ]
+  decide +kernel
 
 end Example
 
